@@ -23,7 +23,7 @@ def write_pair(dirpath, name, src_grid, ref_grid, src, ref, src_valid=None, ref_
     """
     src, ref: (bands, h, w) arrays; *_valid: (h, w) bool or None.
     *_nodata: 'nan' (NaN nodata), a number (numeric nodata written under invalid pixels) or 'mask' (no nodata value,
-    internal mask band; invalid pixels hold an arbitrary finite number).
+    internal mask band; invalid pixels hold an arbitrary finite number) or 'mask+tag' (the same with a nodata tag as well).
     """
     dirpath = pathlib.Path(dirpath)
     src = np.asarray(src, dtype='float64')
@@ -43,6 +43,10 @@ def write_pair(dirpath, name, src_grid, ref_grid, src, ref, src_valid=None, ref_
         elif enc == 'mask':
             a[:, ~valid] = 77.0
             rasters.write_tif(path, grid, a, dtype=dtype, nodata=None, mask=valid, **(kw or {}))
+        elif enc == 'mask+tag':
+            # an internal mask band *and* a nodata tag (GDAL: the mask band decides; the tag value is just a number)
+            a[:, ~valid] = 77.0
+            rasters.write_tif(path, grid, a, dtype=dtype, nodata=-9999.0 if np.dtype(dtype).kind == 'f' else 255, mask=valid, **(kw or {}))
         else:
             a[:, ~valid] = enc
             rasters.write_tif(path, grid, a, dtype=dtype, nodata=enc, **(kw or {}))
